@@ -402,7 +402,7 @@ def d6_model_parameters(ctx):
     dr = [n for n in astx.walk_own(f.node) if isinstance(n, ast.Call) and astx.u(n.func).endswith(".dirichlet")]
     good = len(dr) == 1 and astx.u(dr[0].args[0]) == "[self.alpha] * len(perm_rankings)"
     perms = astx.unique_def(f.node, "perm_set")
-    good = good and perms is not None and astx.u(perms) == "it.permutations(self.candidates, len(self.candidates))"
+    good = good and perms is not None and astx.u(perms) == astx.A("it.permutations(self.candidates, len(self.candidates))")
     ctx.check(good, f, dr[0] if dr else f.node, "ballot-simplex models draw one symmetric Dirichlet weight per complete ranking", "", "Dirichlet parameter vector or the ranking enumeration changed")
 
 
